@@ -223,4 +223,18 @@ theorem no_refresh_when_dead (cfg : Cfg) (d0 d : Data) (plan : IdpPlan) (a r : S
   by_cases hc2 : canRefresh d now <;> simp [hc2] at h
   exact ⟨validateErr_none d now hve, hc2⟩
 
+/-- **a request that had to wait for the refresh lock judges the session again**: whatever the request saw when it started (`d`), if the re-read under the
+    lock (`st`) finds the session ended, inactive, undecryptable or gone, no provider is contacted and nothing is written (session_manager.go:Refresh
+    re-reads through the VALIDATING reader) -/
+theorem waiting_request_revalidates (cfg : Cfg) (d : Data) (st : StoreSt) (plan : IdpPlan) (a r : String) (now : Int)
+    (h : (getSess .valid st now).err ≠ none) :
+    (refresh cfg d st plan a r now).contacted = false ∧ (refresh cfg d st plan a r now).store = st := by
+  unfold refresh
+  by_cases hc : canRefresh d now = true
+  · simp only [hc, Bool.not_true, Bool.false_eq_true, if_false]
+    cases he : (getSess .valid st now).err with
+    | none => exact absurd he h
+    | some e => simp [he]
+  · simp [hc]
+
 end Ww.Proofs.C06
